@@ -691,6 +691,9 @@ pub struct Knobs {
     pub dup_params: bool,
     /// probability (per 1000) that a local array is initialised where it is declared
     pub array_init_permille: u32,
+    /// probability (per 1000) that an atom is replaced by a grammatical but odd expression
+    /// (tuple, `_`, anonymous component, nested array, unknown call, port access): C01 only
+    pub odd_permille: u32,
     /// literals are drawn modulo this prime family: 0 = bn254
     pub prime: usize,
 }
@@ -727,6 +730,7 @@ impl Knobs {
             early_return: b(1, 4),
             dup_params: b(1, 6),
             array_init_permille: 900,
+            odd_permille: 0,
             max_stmts: 2 + rng.usize(14),
             max_depth: rng.usize(4),
             expr_depth: 1 + rng.usize(3),
@@ -1017,7 +1021,50 @@ impl<'a> Ctx<'a> {
         Some(Expr::Call(name, args))
     }
 
+    fn odd_expr(&mut self, mode: u8) -> Expr {
+        let a = self.plain_atom(mode);
+        let b = self.plain_atom(mode);
+        match self.rng.usize(10) {
+            0 => Expr::Tuple(vec![a, b]),
+            1 => Expr::Underscore,
+            2 => Expr::Array(vec![a, Expr::Array(vec![b])]),
+            3 => Expr::Call("no_such_function".into(), vec![a]),
+            4 => {
+                let (name, nparams, nin) = if !self.reg.templates.is_empty() {
+                    let t = &self.reg.templates[self.rng.usize(self.reg.templates.len())];
+                    (t.name.clone(), t.params.len(), t.inputs.len())
+                } else {
+                    ("NoSuchTemplate".to_string(), 0, 1)
+                };
+                Expr::Anon {
+                    template: name,
+                    params: (0..nparams).map(|_| Expr::Num("1".into())).collect(),
+                    inputs: (0..nin).map(|_| (None, a.clone())).collect(),
+                    parallel: self.rng.chance(1, 4),
+                }
+            }
+            5 => match a {
+                Expr::Var(v) => Expr::Access(v, vec![Acc::Port("out".into())]),
+                other => other,
+            },
+            6 => match a {
+                Expr::Var(v) => Expr::Access(v, vec![Acc::Idx(Expr::Tuple(vec![b.clone(), b]))]),
+                other => other,
+            },
+            7 => Expr::Tuple(vec![a, Expr::Underscore, b]),
+            8 => Expr::Prefix("-", Box::new(Expr::Tuple(vec![a, b]))),
+            _ => Expr::Ternary(Box::new(Expr::Tuple(vec![a.clone(), b.clone()])), Box::new(a), Box::new(b)),
+        }
+    }
+
     fn atom(&mut self, mode: u8) -> Expr {
+        if self.k.odd_permille > 0 && self.rng.below(1000) < self.k.odd_permille as u64 {
+            return self.odd_expr(mode);
+        }
+        self.plain_atom(mode)
+    }
+
+    fn plain_atom(&mut self, mode: u8) -> Expr {
         let r = self.rng.usize(10);
         if mode == 1 && r < 5 {
             if let Some(e) = self.sig_read() {
